@@ -15,7 +15,10 @@ H = {"det": key|null, "sig": {"fixed": n, "va": bool, "kwo": [key,..], "vk": boo
      "beh": ["ret"] | ["raise", tag] | ["unsub", [label,..]]}
     a REAL function  def h([self,] q<label>_0[: ann], .., q<label>_(n-1) [, *args] [, k=.., ..] [, **kw])  is built for every handler and
     subscribed with check_types=H["check"]   (legacy: sig null = *args, **kw; sig [..] = *args + those keyword-only names)
-outs: ["sent","sub",rid,topic] ["sent","unsub",rid,sid] ["invoke",label,withobj,args,kwargs]
+msgs delivered from INSIDE transport.send() (loopback transport): ["sub", H, topic, [msg,..]], ["unsub", label, [msg,..]],
+     ["subobj", [[H, topic, [msg,..]],..], call_opts]; msg = one of the five router message ops above
+H["opts"] = null | {"details": null|bool, "details_arg": key|null, "match": null|"exact"|"prefix"|"wildcard", "get_retained": null|bool}
+outs: ["mark", k|"end"] (start of the k-th message delivered inside send / end of a batch), ["sent","sub",rid,topic,match,get_retained] ["sent","unsub",rid,sid] ["invoke",label,withobj,args,kwargs]
       ["usererror",label,exc] ["raised",exc] ["done","s"|"g"|"u",id,res]     exc = [class, extra]
 A handler is identified by the request id of the SUBSCRIBE that registered it (= label).
 Handlers record what they were called with at call time (values copied), so later mutation shows up.
@@ -64,7 +67,43 @@ def normH(H):
     sg = H.get("sig")
     if sg is None: sg = {"fixed": 0, "va": True, "kwo": [], "vk": True}
     elif isinstance(sg, list): sg = {"fixed": 0, "va": True, "kwo": list(sg), "vk": False}
-    return {"det": H.get("det"), "sig": sg, "check": bool(H.get("check")), "ann": H.get("ann"), "beh": H["beh"]}
+    opts = H.get("opts")
+    if "opts" not in H and H.get("det") is not None: opts = {"details_arg": H["det"]}      # legacy form
+    return {"opts": opts, "sig": sg, "check": bool(H.get("check")), "ann": H.get("ann"), "beh": H["beh"]}
+
+
+def mk_options(o):
+    """the application's SubscribeOptions(...) call - may raise (AssertionError) like any user code"""
+    if o is None: return None
+    kw = {}
+    if o.get("details") is not None: kw["details"] = o["details"]
+    if o.get("details_arg") is not None: kw["details_arg"] = KEYS[o["details_arg"]]
+    if o.get("match") is not None: kw["match"] = o["match"]
+    if o.get("get_retained") is not None: kw["get_retained"] = o["get_retained"]
+    return SubscribeOptions(**kw)
+
+
+def wire_of(m):
+    """wire-level list of a router message (top-level op or delivered from inside send())"""
+    k = m[0]
+    if k == "subscribed": return [33, m[1], m[2]]
+    if k == "unsubscribed": return [35, m[1]]
+    if k == "revoked": return [35, 0, {"subscription": m[1], "reason": "wamp.subscription.revoked"}]
+    if k == "error": return [8, m[1], m[2], {}, f"wamp.error.e{m[3]}"]
+    if k == "event":
+        e = m[1]
+        det = {}
+        if e.get("publisher") is not None: det["publisher"] = e["publisher"]
+        if e.get("topic") is not None: det["topic"] = f"com.t{e['topic']}"
+        if e.get("retained") is not None: det["retained"] = e["retained"]
+        w = [36, e["sub"], e["pub"], det]
+        kw = {KEYS[int(k_)]: v for k_, v in e["kwargs"].items()}
+        if kw or e.get("shape") == "both":
+            w += [list(e["args"]), kw]
+        elif e["args"] or e.get("shape") == "args":
+            w += [list(e["args"])]
+        return w
+    raise ValueError(k)
 
 
 def label_of_fn(fn):
@@ -106,6 +145,29 @@ class Runner:
         self.objs = {}          # label -> Subscription
         self.sess = self.s.s
         self.sess.onUserError = self.on_user_error      # observation only (instance attribute shadows the method)
+        # transport mode "answers from inside send()": a loopback / in-process router link
+        self.script, self.depth, self.nmark = [], 0, 0
+        self.serials, self.await_label = [], []
+        self.plain_send = self.s.t.send
+        self.s.t.send = self.send
+
+    def send(self, msg):
+        if msg.MESSAGE_TYPE == 32 and self.await_label:
+            self.await_label.pop(0)[0] = msg.request      # name the handler after the request that registers it
+        self.plain_send(msg)
+        if self.depth == 0 and self.script:
+            batch = self.script.pop(0)
+            self.depth += 1
+            try:
+                for m in batch:
+                    self.log.append(["mark", self.nmark]); self.nmark += 1
+                    try:
+                        self.sess.onMessage(wampdrv.parse(wire_of(m)))
+                    except BaseException as e:            # the transport reports it; the session call goes on
+                        self.log.append(["raised", "onMessage/inside-send", type(e).__name__, str(e)[:160]])
+            finally:
+                self.depth -= 1
+                self.log.append(["mark", "end"])
 
     # ---- observation
     def on_user_error(self, fail, msg):
@@ -113,10 +175,10 @@ class Runner:
         lab = getattr(e, "_av_label", None)
         if lab is None:
             m = re.search(r"\b[hm]\d*_(\d+)\(\)", str(e))
-            lab = int(m.group(1)) if m else None
+            lab = self.serials[int(m.group(1))][0] if m else None
         if lab is None:            # TypeCheckError of the type_check wrapper names the offending parameter
             m = re.search(r"'q(\d+)_\d+' expected type", str(e))
-            lab = int(m.group(1)) if m else -1
+            lab = self.serials[int(m.group(1))][0] if m else -1
         self.log.append(["usererror2", lab, exc_code(e)])
 
     def canon_kw(self, kw):
@@ -133,13 +195,15 @@ class Runner:
                 out[k] = {"$other": repr(v)[:60]}
         return out
 
-    def next_label(self):
-        return self.sess._request_id_gen._next + 1        # peek only: names the function after its request id
 
-    def make_fn(self, H, label, method_index=None):
-        """A real Python function with the signature the case asks for; its body records the call."""
+    def make_fn(self, H, method_index=None):
+        """A real Python function with the signature the case asks for; its body records the call.
+        Its label (= the id of the SUBSCRIBE request that registers it) is filled in when that message is sent."""
         runner = self
-        cell = [label]
+        cell = [-1]
+        label = len(self.serials)          # serial number: travels in the function / parameter names
+        self.serials.append(cell)
+        self.await_label.append(cell)
 
         def body(args, kw):
             withobj = bool(args) and isinstance(args[0], DecoratedBase)
@@ -185,9 +249,6 @@ class Runner:
         fn._av_label = cell
         return fn
 
-    @staticmethod
-    def options(H):
-        return SubscribeOptions(details_arg=KEYS[H["det"]]) if H["det"] is not None else None
 
     # ---- future tracking: register Subscription objects as soon as the application would get them
     def watch_single(self, fut, label):
@@ -210,52 +271,50 @@ class Runner:
     def do(self, op):
         k = op[0]
         s = self.s
+        self.script, self.nmark = [], 0
+        # API calls: the application attaches its callbacks to the returned future at once, before the loop turns again
+        s.auto_turn = k not in ("sub", "subobj", "unsub")
         if k == "sub":
             H, topic = normH(op[1]), op[2]
-            label = self.next_label()
-            fn = self.make_fn(H, label)
-            fut = s._guard("api.subscribe", self.sess.subscribe, fn, f"com.t{topic}", self.options(H),
-                           check_types=(True if H["check"] else None))
-            if fut is not None: self.watch_single(fut, label)
+            self.await_label = []
+            fn = self.make_fn(H)
+            self.script = [list(op[3])] if len(op) > 3 and op[3] else []
+
+            def call():
+                return self.sess.subscribe(fn, f"com.t{topic}", mk_options(H["opts"]),
+                                           check_types=(True if H["check"] else None))
+            fut = s._guard("api.subscribe", call)
+            if fut is not None: self.watch_single(fut, fn._av_label[0])
         elif k == "subobj":
-            g = self.next_label()
-            ns, labels = {}, []
-            for i, (H, topic) in enumerate(op[1]):
-                H = normH(H)
-                label = g + i
-                fn = self.make_fn(H, label, method_index=i)
-                fn = wamp.subscribe(f"com.t{topic}", options=self.options(H), check_types=(True if H["check"] else None))(fn)
-                ns[fn.__name__] = fn
-                labels.append(label)
-            cls = type("Decorated", (DecoratedBase,), ns)
-            fut = s._guard("api.subscribe", self.sess.subscribe, cls())
-            if fut is not None: self.watch_group(fut, g, labels)
+            self.await_label = []
+            cells = []
+            call_opts = op[2] if len(op) > 2 else None
+            self.script = [list(m[2]) if len(m) > 2 and m[2] else [] for m in op[1]]
+            if not any(self.script): self.script = []
+
+            def call():
+                ns = {}
+                copts = mk_options(call_opts)
+                for i, m in enumerate(op[1]):
+                    H = normH(m[0])
+                    fn = self.make_fn(H, method_index=i)
+                    cells.append(fn._av_label)
+                    fn = wamp.subscribe(f"com.t{m[1]}", options=mk_options(H["opts"]),
+                                        check_types=(True if H["check"] else None))(fn)
+                    ns[fn.__name__] = fn
+                cls = type("Decorated", (DecoratedBase,), ns)
+                return self.sess.subscribe(cls(), options=copts) if copts is not None else self.sess.subscribe(cls())
+            fut = s._guard("api.subscribe", call)
+            labels = [c[0] for c in cells]
+            if fut is not None: self.watch_group(fut, labels[0] if labels and labels[0] >= 0 else -1, labels)
         elif k == "unsub":
             o = self.objs.get(op[1])
             if o is not None:
+                self.script = [list(op[2])] if len(op) > 2 and op[2] else []
                 r = s._guard("api.unsubscribe", o.unsubscribe)
                 if r is not None: self.track(r, "u", op[1])
-        elif k == "subscribed":
-            s.recv([33, op[1], op[2]])
-        elif k == "unsubscribed":
-            s.recv([35, op[1]])
-        elif k == "revoked":
-            s.recv([35, 0, {"subscription": op[1], "reason": "wamp.subscription.revoked"}])
-        elif k == "error":
-            s.recv([8, op[1], op[2], {}, f"wamp.error.e{op[3]}"])
-        elif k == "event":
-            e = op[1]
-            det = {}
-            if e.get("publisher") is not None: det["publisher"] = e["publisher"]
-            if e.get("topic") is not None: det["topic"] = f"com.t{e['topic']}"
-            if e.get("retained") is not None: det["retained"] = e["retained"]
-            w = [36, e["sub"], e["pub"], det]
-            kw = {KEYS[int(k_)]: v for k_, v in e["kwargs"].items()}
-            if kw or e.get("shape") == "both":
-                w += [list(e["args"]), kw]
-            elif e["args"] or e.get("shape") == "args":
-                w += [list(e["args"])]
-            s.recv(w)
+        elif k in ("subscribed", "unsubscribed", "revoked", "error", "event"):
+            s.recv(wire_of(op))
         elif k == "lose":
             s.lose(False)
         else:
@@ -290,8 +349,8 @@ class Runner:
             t = e[0]
             if t == "send":
                 m = e[1]
-                if m[0] == 32 and m[2] == {} and re.fullmatch(r"com\.t\d+", m[3]):
-                    o.append(["sent", "sub", m[1], int(m[3][5:])])
+                if m[0] == 32 and set(m[2]) <= {"match", "get_retained"} and re.fullmatch(r"com\.t\d+", m[3]):
+                    o.append(["sent", "sub", m[1], int(m[3][5:]), m[2].get("match"), m[2].get("get_retained")])
                 elif m[0] == 34:
                     o.append(["sent", "unsub", m[1], m[2]])
                 else:
@@ -308,6 +367,8 @@ class Runner:
                                                          "Exception") else ["Other", cls]])
             elif t == "done2":
                 o.append(["done", e[1], e[2], e[3]])
+            elif t == "mark":
+                o.append(["mark", e[1]])
             elif t == "cb":
                 pass
             else:
@@ -342,4 +403,18 @@ for i, ops in enumerate(inp["cases"]):
     gc.collect()
     if FW == "aio":
         del env.loop.exceptions[:]
-json.dump({"fw": FW, "results": results, "protocol_file": _protocol.__file__}, open(sys.argv[2], "w"))
+
+def opts_probe(o):
+    """the real options normalisation: [details_arg key|None, marshalled match, marshalled get_retained] or None (raised)"""
+    from autobahn.wamp import message
+    try:
+        so = mk_options(o)
+    except AssertionError:
+        return None
+    da = so.details_arg
+    w = message.Subscribe(1, "com.t1", **so.message_attr()).marshal()[2]
+    return [KEYS.index(da) if da in KEYS else (None if da is None else -1), w.get("match"), w.get("get_retained")]
+
+
+json.dump({"fw": FW, "results": results, "protocol_file": _protocol.__file__,
+           "opts": [opts_probe(o) for o in inp.get("opts_grid", [])]}, open(sys.argv[2], "w"))
